@@ -52,10 +52,14 @@ type runCfg struct {
 	HoldAt      int           `json:"hold_sink_call"` // -1: none; the sink call with this index blocks until Shutdown was called
 	Lean        bool          `json:"lean_payloads"`
 	Directed    string        `json:"directed,omitempty"`
+	// Refuse: the sink calls with these indices (counted over the whole run) return a transient error; the items of
+	// a refused export count as offered downstream (the processor does not retry) and are not owed again.
+	Refuse     []int `json:"refused_sink_calls,omitempty"`
+	BigArrival int   `json:"items_of_the_big_arrivals,omitempty"` // arrivals of 2..6 x send_batch_max_size (0: ordinary payloads)
 }
 
 func (c *runCfg) class() string {
-	return fmt.Sprintf("%s/%s/size%s/max%s/keys%d/limit%d/p%d/conc=%v/hold=%v/at=%v", c.Signal, c.Mode, bucket(c.Size), bucket(c.Max), len(c.Keys), c.Limit, c.Producers, c.Concurrent, c.HoldAt >= 0, c.ShutdownAt >= 0)
+	return fmt.Sprintf("%s/%s/size%s/max%s/keys%d/limit%d/p%d/conc=%v/hold=%v/at=%v/refusals=%d/big=%v", c.Signal, c.Mode, bucket(c.Size), bucket(c.Max), len(c.Keys), c.Limit, c.Producers, c.Concurrent, c.HoldAt >= 0, c.ShutdownAt >= 0, len(c.Refuse), c.BigArrival > 0)
 }
 
 func bucket(n uint32) string {
@@ -142,12 +146,13 @@ type payload struct {
 }
 
 type sinkCall struct {
-	k     int
-	seq   int64
-	at    time.Time
-	recs  []canon.Record
-	md    map[string][]string
-	extra []string // metadata keys of the export context that are not configured keys
+	k       int
+	refused bool // the sink returned an error for this call (scripted)
+	seq     int64
+	at      time.Time
+	recs    []canon.Record
+	md      map[string][]string
+	extra   []string // metadata keys of the export context that are not configured keys
 }
 
 type sigAdapter struct {
@@ -253,6 +258,8 @@ func buildRun(rng *rand.Rand) (*runCfg, []*payload) {
 		cfg.IntervalUS = int(cfg.Timeout / 4 / time.Microsecond)
 		cfg.MinSends = 24 + rng.Intn(9)
 		cfg.TrickleSeed = rng.Int63()
+	case r < 16:
+		return buildRefusalRun(rng, a)
 	default:
 		cfg.Mode = "immediate"
 		if rng.Intn(2) == 0 {
@@ -342,6 +349,80 @@ func buildRun(rng *rand.Rand) (*runCfg, []*payload) {
 	return cfg, pls
 }
 
+// buildRefusalRun: big arrivals (2..6 x send_batch_max_size items in one payload, so the processor has to send
+// several chunks in a row) in front of a sink that refuses some of its calls (seed-chosen indices, also chunks that
+// are not the last one of an arrival, also several), no timer that could help (timeout 1 h or none), Shutdown either
+// at once after the last arrival was accepted or after the run has settled.
+func buildRefusalRun(rng *rand.Rand, a *sigAdapter) (*runCfg, []*payload) {
+	cfg := &runCfg{Signal: a.name, ShutdownAt: -1, HoldAt: -1, Waves: 1}
+	cfg.Max = uint32(2 + rng.Intn(7))
+	switch rng.Intn(4) {
+	case 0, 1:
+		cfg.Mode, cfg.Timeout, cfg.Size = "size", time.Hour, uint32(1+rng.Intn(int(cfg.Max)))
+	case 2:
+		cfg.Mode, cfg.Timeout, cfg.Size = "immediate", 0, uint32(rng.Intn(int(cfg.Max)+1))
+	default:
+		cfg.Mode, cfg.Timeout, cfg.Size = "immediate", time.Hour, 0
+	}
+	switch rng.Intn(4) {
+	case 0, 1:
+	case 2:
+		cfg.Keys = []string{"tenant"}
+	default:
+		cfg.Keys = []string{"Tenant", "region"}
+	}
+	if len(cfg.Keys) > 0 {
+		cfg.Limit = uint32(rng.Intn(4))
+	}
+	cfg.Producers = 1
+	if len(cfg.Keys) > 0 {
+		cfg.Producers = 1 + rng.Intn(2)
+	}
+	cfg.PerProducer = 1 + rng.Intn(2)
+	cfg.Lean = rng.Intn(2) == 0
+	ratio := 2 + rng.Intn(5)
+	cfg.BigArrival = int(cfg.Max)*ratio + 1 + rng.Intn(int(cfg.Max))
+	var pls []*payload
+	expectedCalls := 0
+	for p := 0; p < cfg.Producers; p++ {
+		for k := 0; k < cfg.PerProducer; k++ {
+			owner := fmt.Sprintf("w0p%dk%d", p, k)
+			gc := gen.Config{MaxResources: 1, MaxScopes: 1, MinItems: cfg.BigArrival, MaxItems: cfg.BigArrival, MaxPoints: 1 + rng.Intn(2), NonEmpty: true, Lean: cfg.Lean}
+			if rng.Intn(2) == 0 { // the same number of items spread over up to 2 x 2 containers
+				gc.MaxResources, gc.MaxScopes = 2, 2
+				gc.MinItems = (cfg.BigArrival + 1) / 2
+				gc.MaxItems = gc.MinItems
+			}
+			if k == 1 && rng.Intn(2) == 0 { // a small arrival after the big one
+				gc = gen.Config{MaxResources: 1, MaxScopes: 1, MaxItems: 3, MaxPoints: 2, NonEmpty: true, Lean: cfg.Lean}
+			}
+			x := a.gen(gen.New(rng, owner, gc))
+			recs, shape := a.flatten(x)
+			md := map[string][]string{"other": {"x"}, "tenant": {fmt.Sprintf("t%d", rng.Intn(2))}}
+			if rng.Intn(2) == 0 {
+				md["region"] = []string{"r0"}
+			}
+			pls = append(pls, &payload{owner: owner, p: x, recs: recs, shape: shape, md: md, group: groupOf(cfg.Keys, md), producer: p})
+			expectedCalls += (len(recs) + int(cfg.Max) - 1) / int(cfg.Max)
+		}
+	}
+	set := map[int]bool{}
+	for i, n := 0, 1+rng.Intn(3); i < n; i++ {
+		set[rng.Intn(expectedCalls)] = true
+	}
+	if rng.Intn(3) == 0 { // the very first chunk of the first arrival
+		set[0] = true
+	}
+	for k := range set {
+		cfg.Refuse = append(cfg.Refuse, k)
+	}
+	sort.Ints(cfg.Refuse)
+	if rng.Intn(3) > 0 {
+		cfg.ShutdownAt = len(pls) // Shutdown at once after the last arrival was accepted: no further arrival, no tick
+	}
+	return cfg, pls
+}
+
 const (
 	slack      = 4 * time.Second        // bounded-progress limit for "a flush that is due happens"; ≥ 150 x the timeout
 	healthyGap = 200 * time.Millisecond // the scheduler witness must not have been delayed longer than this
@@ -378,6 +459,10 @@ func runOne(c *driver.Ctx, cfg *runCfg, pls []*payload) (splitSeen bool) {
 		ownerPl[pl.owner] = pl
 	}
 
+	refuse := map[int]bool{}
+	for _, k := range cfg.Refuse {
+		refuse[k] = true
+	}
 	ev := &evlog{}
 	var mu sync.Mutex
 	var calls []*sinkCall
@@ -421,6 +506,7 @@ func runOne(c *driver.Ctx, cfg *runCfg, pls []*payload) (splitSeen bool) {
 			heldOnce.Do(func() { close(held) })
 			<-release
 		}
+		sc.refused = refuse[k]
 		mu.Lock()
 		calls = append(calls, sc)
 		for i := range sc.recs {
@@ -431,6 +517,9 @@ func runOne(c *driver.Ctx, cfg *runCfg, pls []*payload) (splitSeen bool) {
 			}
 		}
 		mu.Unlock()
+		if sc.refused {
+			return fmt.Errorf("scripted transient refusal of sink call %d", k)
+		}
 		return nil
 	}
 	proc, consume, err := a.create(factory, pc, sink)
@@ -448,7 +537,7 @@ func runOne(c *driver.Ctx, cfg *runCfg, pls []*payload) (splitSeen bool) {
 			}
 		}
 		for _, sc := range calls {
-			hist = append(hist, fmt.Sprintf("sink call %d @%d items=%d metadata=%v owners=%v", sc.k, sc.seq, len(sc.recs), sc.md, canon.Owners(sc.recs)))
+			hist = append(hist, fmt.Sprintf("sink call %d @%d items=%d metadata=%v owners=%v%s", sc.k, sc.seq, len(sc.recs), sc.md, canon.Owners(sc.recs), map[bool]string{true: " REFUSED by the sink", false: ""}[sc.refused]))
 		}
 		mu.Unlock()
 		if len(hist) > 120 {
@@ -760,6 +849,12 @@ func runOne(c *driver.Ctx, cfg *runCfg, pls []*payload) (splitSeen bool) {
 			}
 		}
 	}
+	refusedCalls0 := 0
+	for _, sc := range snapshotCalls {
+		if sc.refused {
+			refusedCalls0++
+		}
+	}
 	reported := map[string]bool{}
 	for _, m := range canon.Diff(expected, emitted) {
 		fields := m.Fields
@@ -769,7 +864,11 @@ func runOne(c *driver.Ctx, cfg *runCfg, pls []*payload) (splitSeen bool) {
 		for _, f := range fields {
 			if k := m.Kind + "/" + f; !reported[k] {
 				reported[k] = true
-				c.Violation("conservation", fmt.Sprintf("%s: item %s %s (%s) by the time Shutdown returned: in[%s] out[%s]", cfg.Signal, m.ID, m.Kind, f, clip(m.In, 160), clip(m.Out, 160)),
+				note := ""
+				if refusedCalls0 > 0 {
+					note = fmt.Sprintf(" [%d sink calls were refused by script; their items count as offered]", refusedCalls0)
+				}
+				c.Violation("conservation", fmt.Sprintf("%s: item %s %s (%s) by the time Shutdown returned (offered downstream = handed to the sink, accepted or refused)%s: in[%s] out[%s]", cfg.Signal, m.ID, m.Kind, f, note, clip(m.In, 160), clip(m.Out, 160)),
 					witness(map[string]any{"mismatch": m}), "signal", cfg.Signal, "kind", m.Kind, "field", f)
 			}
 		}
@@ -908,6 +1007,25 @@ func runOne(c *driver.Ctx, cfg *runCfg, pls []*payload) (splitSeen bool) {
 
 	c.Observe("runs", 1)
 	c.Observe("runs_"+cfg.Mode, 1)
+	refusedCalls, refusedItems, chunksAfterRefusal := 0, 0, 0
+	for i, sc := range snapshotCalls {
+		if sc.refused {
+			refusedCalls++
+			refusedItems += len(sc.recs)
+			if i+1 < len(snapshotCalls) {
+				chunksAfterRefusal++
+			}
+		}
+	}
+	if len(cfg.Refuse) > 0 {
+		c.Observe("runs_with_scripted_sink_refusals", 1)
+		c.Observe("sink_calls_refused", int64(refusedCalls))
+		c.Observe("items_in_refused_exports(offered, not owed again)", int64(refusedItems))
+		c.Observe("refused_exports_followed_by_further_exports", int64(chunksAfterRefusal))
+		if cfg.ShutdownAt >= 0 {
+			c.Observe("runs_with_refusals_and_shutdown_at_once", 1)
+		}
+	}
 	c.Observe("sink_calls", int64(len(snapshotCalls)))
 	c.Observe("items_emitted", int64(len(emitted)))
 	c.Observe("payloads_accepted_before_shutdown", int64(accepted))
@@ -924,7 +1042,7 @@ func runOne(c *driver.Ctx, cfg *runCfg, pls []*payload) (splitSeen bool) {
 	isig := ev.signature()
 	c.Distinct("interleavings", isig)
 	c.Distinct("config_classes", cfg.class())
-	if spreadPayloads > 0 || len(groupsSeen) >= 2 || duringShutdown > 0 || trickleFlushes >= 2 {
+	if spreadPayloads > 0 || len(groupsSeen) >= 2 || duringShutdown > 0 || trickleFlushes >= 2 || chunksAfterRefusal > 0 {
 		c.Nontrivial(cfg.class(), cfg.Size, cfg.Max, cfg.Timeout, isig)
 	}
 	if c.Shard == 0 {
@@ -999,12 +1117,12 @@ func main() {
 	driver.Main(driver.Spec{
 		ID:    "C17",
 		Level: "exploration",
-		Rule: "a run is (signal, send_batch_size 0..50 or 'never', send_batch_max_size 0 or >= size, timeout 0 / 10-20 ms / 1 h, 0..2 metadata_keys, cardinality limit 0..3, 1..8 producers x generated payloads with random client metadata in 1..3 waves, or a sustained trickle: 1..2 producers sending one small payload every timeout/4 for >= 6 timeouts and until their first payload is out, " +
+		Rule: "a run is (signal, send_batch_size 0..50 or 'never', send_batch_max_size 0 or >= size, timeout 0 / 10-20 ms / 1 h, 0..2 metadata_keys, cardinality limit 0..3, 1..8 producers x generated payloads with random client metadata in 1..3 waves, big arrivals of 2..6 x send_batch_max_size in front of a sink that refuses seed-chosen calls (timeout 1 h or no timer, Shutdown at once or after settling), or a sustained trickle: 1..2 producers sending one small payload every timeout/4 for >= 6 timeouts and until their first payload is out, " +
 			"shutdown point: after everything settled / after n completed sends (producers quiesced or still in a call) / while the shard is held inside a sink call with accepted payloads in its input channel); " +
 			"distinct by (config class, size, max, timeout, interleaving signature = hash of the consume-call/return, sink-call and shutdown events with actors); " +
-			"non-trivial when a payload was split over >= 2 batches, >= 2 metadata groups were emitted, a batch was emitted during Shutdown (items were pending at shutdown), or a trickle run saw >= 2 timer flushes while arrivals continued",
+			"non-trivial when a payload was split over >= 2 batches, >= 2 metadata groups were emitted, a batch was emitted during Shutdown (items were pending at shutdown), a trickle run saw >= 2 timer flushes while arrivals continued, or a refused export was followed by further exports",
 		Assumptions: []string{
-			"downstream accepts everything (the sink returns nil)",
+			"downstream accepts everything, except in the runs with scripted refusals: there the sink returns a transient error for seed-chosen calls; conservation is judged on what was OFFERED downstream (handed to the sink, accepted or refused): by the time Shutdown returns every accepted item was offered exactly once; the items of a refused export are not owed again (the processor does not retry), items never offered are lost",
 			"must-emit set = payloads whose Consume call returned nil before the Shutdown call was made (event counter); payloads accepted while Shutdown runs may or may not be emitted, but never partially or twice; Shutdown concurrent with Consume calls is only exercised without metadata_keys (a shard started after Shutdown began is outside the statement)",
 			"size trigger / timer flush are bounded-progress checks: after all producers of a wave returned, every group must get below send_batch_size (size mode) / to zero pending items (timer, immediate) within 4 s (>= 200 x the timeout); the verdict needs a healthy scheduler witness (no 1 ms sleep took longer than 200 ms), else the run is inconclusive",
 			"sustained trickle (timeout 20/40 ms, arrivals every timeout/4 that never pause, send_batch_size never reached): at every emission the oldest pending item (arrival = return of its Consume call) must not be older than timeout + 4 s; the arrivals go on until each producer's first payload is out, or timeout + 4 s + 2 timeouts have passed, so a timer that every arrival restarts is seen; verdict only with a healthy scheduler witness over the whole run, else inconclusive",
